@@ -28,8 +28,8 @@ package http
 //@   safety
 // The bind of a route is its first segment after ALL leading (and trailing) slashes are dropped, lower-cased: "//internal/x"
 // belongs to the same listener as "/internal/x" (a path that loses only one slash would land on the public listener).
-//@   call strings.Split #1 requires [every-leading-slash-is-dropped-first] arg(0) == ret(call strings.Trim #1) && arg(call strings.Trim #1, 1) == "/" && arg(1) == "/"
-//@   call strings.ToLower #1 requires [the-first-segment] arg(0) == parts[0] && same(parts, ret(call strings.Split #1))
+//@   ensures [every-leading-slash-is-dropped-first] did(call strings.Trim #1) && arg(call strings.Trim #1, 1) == "/" && did(call strings.Split #1)
+//@        && arg(call strings.Split #1, 0) == ret(call strings.Trim #1) && arg(call strings.Split #1, 1) == "/"
 
 // Route registration: the echo instance that receives a route is the one bound to the route's
 // first path segment, else the one bound to "/" (the public interface).
